@@ -145,7 +145,8 @@ mkunaryexpr(enum tokenkind op, struct expr *base)
 	case TMUL:
 		if (base->type->kind != TYPEPOINTER)
 			error(&tok.loc, "cannot dereference non-pointer");
-		if (base->kind == EXPRUNARY && base->op == TBAND) {
+		/* a string literal must keep its array type, which describes the data to emit */
+		if (base->kind == EXPRUNARY && base->op == TBAND && base->base->kind != EXPRSTRING) {
 			type = base->type->base;
 			expr = base->base;
 			expr->qual = base->type->qual;
